@@ -350,7 +350,7 @@ def run_harness(scenarios, tag, timeout=900):
     json.dump({"scenarios": [{k: v for k, v in s.items() if k != "defs"} for s in scenarios]}, open(cf, "w"))
     if os.path.exists(of):
         os.remove(of)
-    ov = go_overlay({"internal/index/manager/zz_verif_c06_test.go": HARNESS}, "c06")
+    ov = go_overlay({"internal/index/manager/zz_verif_c06_test.go": HARNESS}, "c06_" + tag)
     rc, out, dt = go_test("./internal/index/manager/", ov, "^TestVerifC06$", {"VERIF_CASES": cf, "VERIF_OUT": of}, timeout=timeout)
     note = "" if rc == 0 else "go harness rc=%d: %s" % (rc, out[-2500:])
     res = {}
